@@ -21,7 +21,7 @@ COMPONENTS_STUB = ["UDP socket (SimSocket) incl. IPV6_PKTINFO with multicast des
                    "event loop clock (virtual)"]
 ASSUMPTIONS = ["reaction table written from RFC 7252 section 4 and RFC 7967, independent of the code",
                "CON requests addressed to a multicast group are not generated (peer misbehaviour the statement does not cover)"]
-EXPECTED_PROBES = ["duplicated_request", "ping", "piggyback", "empty_ack_then_separate", "handler_at_delay_minus_eps", "handler_at_delay_plus_eps",
+EXPECTED_PROBES = ["token_reused_after_completed_exchange", "duplicated_request", "ping", "piggyback", "empty_ack_then_separate", "handler_at_delay_minus_eps", "handler_at_delay_plus_eps",
                    "matched_con_response", "unmatched_con_response_unicast", "unmatched_con_response_multicast",
                    "no_response_suppressed", "misfit", "request_to_multicast", "reliable_to_multicast"]
 
@@ -70,6 +70,14 @@ def gen(r, tier):
         else:
             op = gen_inject(r, i)
             op["t"] = round(t, 4)
+            prev = ops[-1] if ops else None
+            if (op["cls"] == "request" and prev is not None and prev.get("op") == "inject" and prev.get("cls") == "request"
+                    and prev["type"] == "CON" and prev.get("dst") == "uni" and op.get("dst") == "uni"
+                    and prev.get("handler") in ("fast", "raise", "missing", "ret4", "ret5") and r.chance(0.3)):
+                # a client may use a token again once the previous exchange on it is over
+                op["reuse_token"] = True
+                op["t"] = round(prev["t"] + r.choice([0.01, 0.03, 0.09, 0.2]), 4)
+                t = op["t"]
             if op.get("token") == "match" and not any(o["op"] == "request" and o["target"] == "peer" for o in ops):
                 ops.append({"op": "request", "t": round(t, 4), "target": "peer", "tuning": r.choice([None, "Unreliable"])})
                 op["t"] = round(t + 0.05, 4)
@@ -111,6 +119,13 @@ def systematic(tier):
                                      "dst": "uni"}]})
     for tun in (None, "Reliable", "Unreliable"):
         out.append({"ops": [{"op": "request", "t": 0.0, "target": "mcast", "tuning": tun}]})
+    for nr in (None, 2, 26):
+        for typ2 in ("CON", "NON"):
+            for dt in (0.01, 0.03, 0.2):
+                out.append({"ops": [{"op": "inject", "t": 0.0, "type": "CON", "cls": "request", "code": rc.PUT, "handler": "fast",
+                                     "no_response": nr, "dst": "uni"},
+                                    {"op": "inject", "t": dt, "type": typ2, "cls": "request", "code": rc.GET, "handler": "fast",
+                                     "no_response": None, "dst": "uni", "reuse_token": True}]})
     for h in ("fast", "pre", "post", "slow", "raise", "slowraise"):
         for typ in ("CON", "NON"):
             for dt in (0.0, 0.01, 0.05, 0.105, 0.6):
@@ -221,6 +236,10 @@ def execute(sim, scn):
                 opts.append((rc.NO_RESPONSE, rc.uint_bytes(op["no_response"])))
         elif op["cls"] == "response":
             payload = b"inj%d" % i
+        if op.get("reuse_token") and injected and injected[-1]["op"].get("cls") == "request":
+            token = injected[-1]["token"]
+            injected[-1]["t_next_same_token"] = loop.now + 0.005
+            sim.probe("token_reused_after_completed_exchange")
         m = {"type": TYPES[op["type"]], "code": op["code"], "mid": mid, "token": token, "options": opts,
              "payload": payload}
         dst = (MCAST, 5683) if op.get("dst") == "mcast" else E
@@ -300,6 +319,9 @@ def execute(sim, scn):
         acks = sent_to_peer(lambda m: m["type"] == rc.ACK and m["mid"] == M)
         rsts = sent_to_peer(lambda m: m["type"] == rc.RST and m["mid"] == M)
         resps = sent_to_peer(lambda m: m["type"] in (rc.CON, rc.NON) and m["code"] >= 64 and m["token"] == T and T != b"")
+        # when the token is used again later, only what was sent before that belongs to this request
+        t_hi = rec.get("t_next_same_token", float("inf"))
+        resps = [e for e in resps if rec["t"] - TOL <= e["t"] < t_hi - TOL]
         inv = [x for x in invocations if x[3] == M]
         typ, cls = op["type"], op["cls"]
         mcast = op.get("dst") == "mcast"
